@@ -974,7 +974,7 @@ def correspondence(ctx):
         ctx.extra["exhaustive"] = {"pre-existing states x ops (single call)": len(ex)}
         for i in range(0, len(ex), 800):
             run_seq_cases(ctx, ex[i:i + 800], limit)
-        nseq = 6000 if thorough else 600
+        nseq = 30000 if thorough else 600
         seq = [gen_seq_case(rng) for _ in range(nseq)]
         for i in range(0, len(seq), 1000):
             run_seq_cases(ctx, seq[i:i + 1000], limit)
@@ -983,10 +983,11 @@ def correspondence(ctx):
         sites = all_sites_runs(rng)
         ctx.extra["exhaustive"]["kill/raise at every site of every critical section"] = len(sites)
         if thorough:
-            runs = sites + [gen_lock_run(rng, "plain") for _ in range(120)] + [gen_lock_run(rng, "fault") for _ in range(160)] \
-                + [gen_lock_run(rng, "timeout", rng.randint(2, 5)) for _ in range(30)]
-            slow = [gen_lock_run(rng, "real", rng.randint(2, 4)) for _ in range(24)] \
-                + [gen_lock_run(rng, "timeout-real", rng.randint(2, 3)) for _ in range(8)]
+            runs = sites + sites + [gen_lock_run(rng, "plain") for _ in range(500)] \
+                + [gen_lock_run(rng, "fault") for _ in range(800)] \
+                + [gen_lock_run(rng, "timeout", rng.randint(2, 5)) for _ in range(100)]
+            slow = [gen_lock_run(rng, "real", rng.randint(2, 4)) for _ in range(64)] \
+                + [gen_lock_run(rng, "timeout-real", rng.randint(2, 3)) for _ in range(16)]
         else:
             runs = sites + [gen_lock_run(rng, "plain") for _ in range(12)] + [gen_lock_run(rng, "fault") for _ in range(20)] \
                 + [gen_lock_run(rng, "timeout", rng.randint(2, 4)) for _ in range(4)]
